@@ -10,7 +10,19 @@ client address, former findings F20 / F19).  Tied to the code by K-proxy (real m
 the extracted model: whole environ / 400 header / exception class) and
 searched with the executable specification (Spec/ProxySpec.v, validated
 against its extraction on every argument used) directly on the real
-middleware."""
+middleware.
+
+Extension: the exact characterisation (C16_trusted_exact: refused iff
+refusal_reason finds a category, with the header named; otherwise the environ
+is spec_out on every key, including the HTTP_HOST port formatting), tied to the
+code by S-fspec: the functional specification extracted ON ITS OWN
+(ocaml/proxyfs, no model code) against the real middleware on every key, on
+generators forced by the proofs' hypotheses (per-element omitted parameters,
+mixed-case names, escapes, bracketed IPv6 with ports, empty members, OWS, very
+long lists, counts 1..5 below/at/above the length); S-wf: headers drawn from
+the grammar Spec.wf_headers are accepted; S-config: the real Adjustments on
+every subset of trusted_proxy_headers in mixed-case spellings against the
+documented exclusivity rule."""
 from harness import proxy as P
 
 LEVEL = "proof"
@@ -30,6 +42,10 @@ def run(ctx):
     if runner is None:
         ctx.oblige("extracted proxy model builds", False, "see notes")
         return
+    fs_runner = ctx.runner("proxyfs", "ExtProxyfs.v")
+    if fs_runner is None:
+        ctx.oblige("extracted functional specification (Spec/ProxySpec.v) builds", False, "see notes")
+        return
     rng = ctx.rng
     quick = ctx.tier == "quick"
     evaluations = 0
@@ -43,6 +59,9 @@ def run(ctx):
     # ---- K-proxy
     cases = P.exhaustive_small(ctx.tier) + P.hop_law_cases(ctx.tier)
     n_struct = len(cases)
+    ext = P.ext_cases(rng, ctx.tier)
+    n_ext = len(ext)
+    cases += ext
     cases += [P.gen_case(rng, "trusted") for _ in range(14000 if quick else 250000)]
     mism, dist, reals = P.compare_model(runner, cases, log_rng=rng)
     evaluations += len(cases)
@@ -93,8 +112,15 @@ def run(ctx):
     counts = P.Counter()
     tph_dist = P.Counter()
     eligible = []
-    for (env, cfg), real in zip(cases, reals):
+    for idx, ((env, cfg), real) in enumerate(zip(cases, reals)):
         if not (P.is_trusted_path(env, cfg) and cfg.count >= 1 and P.allowed_tph(cfg.tph) and "wsgi.url_scheme" in env):
+            continue
+        if n_struct <= idx < n_struct + n_ext:
+            # the extension's cases are judged by the exact specification (S-fspec below); the
+            # "left hop appears nowhere" test of this older search is a substring heuristic and the
+            # extension's vocabulary has hops that are substrings of other hops (192.0.2.3 / 192.0.2.35).
+            # They still take part in the exact two-run searches (S-kinds, S-prune).
+            eligible.append((env, cfg, real))
             continue
         n_spec += 1
         evaluations += 1
@@ -174,6 +200,81 @@ def run(ctx):
     ctx.oblige("S-kinds: real middleware run twice, an untrusted kind's value changed: same outcome, same environ elsewhere, removed when clearing is on", kinds_ok)
     ctx.oblige("S-prune: real middleware run twice, the hops left of the trusted suffix replaced: same environ", prune_ok)
 
+    # ---- S-fspec: the extracted functional specification against the real middleware, every key
+    fs_cases = [(env, cfg) for (env, cfg) in cases if P.fspec_eligible(env, cfg)]
+    fs_reals = [real for (env, cfg), real in zip(cases, reals) if P.fspec_eligible(env, cfg)]
+    wf_cases = [P.gen_wf_case(rng) for _ in range(1500 if quick else 30000)]
+    fs_cases += wf_cases
+    fs_reals += [P.real_middleware(env, cfg) for env, cfg in wf_cases]
+    fs_ans = P.fspec_batch(fs_runner, fs_cases)
+    evaluations += len(fs_cases)
+    fs_ok = True
+    wf_ok = True
+    fs_dist = P.Counter()
+    n_wf = 0
+    n_wf_headers = 0
+    fs_nontrivial = set()
+    n_rep = 0
+    for (env, cfg), real, ans in zip(fs_cases, fs_reals, fs_ans):
+        fs_dist["accepted" if ans[0] == "ok" else "400:" + str(ans[1])] += 1
+        wf = ans[3] if ans[0] == "mal" else (ans[1] if ans[0] == "ok" else False)
+        tphs = cfg.tph or frozenset()
+        if any(P.KIND_KEY[k] in env for k in tphs if k in P.KIND_KEY):
+            fs_nontrivial.add(P.case_key(env, cfg))
+        diff = P.fspec_compare(real, ans)
+        if diff:
+            fs_ok = False
+            if n_rep < 20:
+                n_rep += 1
+                d = P.describe(env, cfg)
+                d.update({"kind": "fspec", "expected_spec": P.fspec_expected_json(ans), "expected": "C16_trusted_exact / Spec.spec_out: " + diff.split("; implementation")[0][:300],
+                          "observed": P.short(real), "failing_input_found": True})
+                ctx.report("fspec:" + P.case_key(env, cfg)[:12], "real middleware differs from the functional specification (Spec/ProxySpec.v refusal_reason / spec_out): " + diff, d)
+        if wf:
+            n_wf += 1
+            if any(P.KIND_KEY[k] in env for k in tphs if k in P.KIND_KEY):
+                n_wf_headers += 1
+            if real[0] != "ok":
+                wf_ok = False
+                d = P.describe(env, cfg)
+                d.update({"kind": "fspec", "expected_spec": P.fspec_expected_json(ans), "expected": "well-formed proxy headers (Spec.wf_headers) are accepted",
+                          "observed": P.short(real), "failing_input_found": True})
+                ctx.report("wf:" + P.case_key(env, cfg)[:12], "well-formed proxy headers refused: " + P.short(real), d)
+    nontrivial |= fs_nontrivial
+    ctx.oblige("S-fspec: the functional specification extracted on its own (refusal_reason, category_header, spec_out) equals the real middleware: same 400 header, same value on every key of the environ", fs_ok,
+               "%d cases" % len(fs_cases))
+    ctx.oblige("S-wf: every generated header set that is well-formed by Spec.wf_headers is accepted by the real middleware", wf_ok and n_wf_headers > 0,
+               "%d well-formed (%d with a trusted header present)" % (n_wf, n_wf_headers))
+
+    # ---- S-config: trusted_proxy_headers validation by the real Adjustments, mixed-case spellings of every subset
+    cfg_cases = P.tph_config_cases(rng, ctx.tier)
+    cfg_ok = True
+    cfg_dist = P.Counter()
+    n_cfg_req = 0
+    for i, (names, form, value) in enumerate(cfg_cases):
+        ok, exp, got = P.tph_config_eval(names, form, value)
+        evaluations += 1
+        cfg_dist[exp[0] + ("" if exp[0] == "accepted" else ":" + exp[1])] += 1
+        fails = []
+        if not ok:
+            fails.append("Adjustments(trusted_proxy_headers=%r): expected %s, observed %s" % (
+                value if isinstance(value, str) else sorted(value), exp[0] + (" " + str(sorted(exp[1])) if exp[0] == "accepted" else " (" + exp[1] + ")"),
+                got[0] + (" " + str(sorted(got[1])) if got[0] == "accepted" else "")))
+        elif exp[0] == "accepted" and (quick and i % 5 == 0 or not quick):
+            fails = P.tph_config_request_eval(names, value)
+            n_cfg_req += 1
+            evaluations += 1
+        if fails:
+            cfg_ok = False
+            ctx.report("config:" + ",".join(sorted(n.lower() for n in names))[:60],
+                       "trusted_proxy_headers validation departs from the documented rule (names case-insensitive; Forwarded and X-Forwarded-* mutually exclusive): " + fails[0],
+                       {"kind": "tphcfg", "names": list(names), "form": form, "value": value if isinstance(value, str) else sorted(value),
+                        "value_is_str": isinstance(value, str),
+                        "expected": exp[0] + (" " + str(sorted(exp[1])) if exp[0] == "accepted" else " (" + exp[1] + ")"),
+                        "observed": fails[:3], "failing_input_found": True})
+    ctx.oblige("S-config: real Adjustments on every subset of the six kinds in lower/Title/UPPER/mixed spellings and set/list/str forms: refused iff unknown or Forwarded together with an X-Forwarded-* kind; accepted sets reach the middleware lower-cased and exactly the listed kinds survive a request", cfg_ok,
+               "%d configurations, %d requests" % (len(cfg_cases), n_cfg_req))
+
     nval, bad = spec.validate(runner)
     evaluations += nval
     for fn, arg, want, got in bad[:5]:
@@ -190,10 +291,18 @@ def run(ctx):
     ctx.coverage.update({
         "evaluations": evaluations,
         "distinct_nontrivial": len(nontrivial),
-        "rule": "generated (environ, configuration) pairs: every degenerate element alone / after / before a valid one, all (n,k) in a box for the hop law, plus random header grammars; non-trivial = distinct cases of a trusted peer with count >= 1, an allowed set of trusted kinds and at least one trusted header present",
+        "rule": "generated (environ, configuration) pairs: every degenerate element alone / after / before a valid one, all (n,k) in a box for the hop law, presence masks of Forwarded parameters per element, grammar-driven values (escapes, bracketed IPv6 with ports, empty members, OWS, lists up to 257 / 3000 elements, counts 1..5), values drawn from Spec.wf_headers, plus random header grammars; non-trivial = distinct cases of a trusted peer with count >= 1, an allowed set of trusted kinds and at least one trusted header present",
         "samples": samples,
         "model_vs_real_cases": len(cases),
         "structured_cases": n_struct,
+        "extension_cases": n_ext,
+        "fspec_cases": len(fs_cases),
+        "fspec_outcome_distribution": dict(fs_dist),
+        "wellformed_cases": n_wf,
+        "wellformed_with_trusted_header": n_wf_headers,
+        "config_cases": len(cfg_cases),
+        "config_expected_distribution": dict(cfg_dist),
+        "config_requests": n_cfg_req,
         "server_wrapper_cases": n_srv,
         "history_requests": nh,
         "real_outcome_distribution": dict(dist),
@@ -210,4 +319,14 @@ def run(ctx):
 
 
 def replay(data):
+    if data.get("kind") == "fspec":
+        return P.fspec_replay(data)
+    if data.get("kind") == "tphcfg":
+        value = data["value"] if data.get("value_is_str") else set(data["value"])
+        ok, exp, got = P.tph_config_eval(data["names"], data["form"], value)
+        fails = [] if ok else ["expected %r, observed %r" % (exp, got)]
+        if ok and exp[0] == "accepted":
+            fails = P.tph_config_request_eval(data["names"], value)
+        print("trusted_proxy_headers=%r\n %s" % (data["value"], fails or "follows the documented rule now"))
+        return 1 if fails else 0
     return P.replay_common(data)
